@@ -9,7 +9,7 @@ theorem succW_ofEdges {n : Nat} {es : List Edge} {u : Nat} (hu : u < n) :
   simp [View.succW, ofEdges, List.getD_eq_getElem?_getD, List.getElem?_map, List.getElem?_range hu]
 
 theorem pred_ofEdges {n : Nat} {es : List Edge} {v : Nat} (hv : v < n) :
-    (ofEdges n es).pred v = innOf n es v := by
+    (ofEdges n es).pred v = innOf es v := by
   simp [View.pred, ofEdges, List.getD_eq_getElem?_getD, List.getElem?_map, List.getElem?_range hv]
 
 theorem mem_outOf {es : List Edge} {u : Nat} {p : Nat × Nat} : p ∈ outOf es u ↔ (u, p) ∈ es := by
@@ -24,25 +24,15 @@ theorem mem_outOf {es : List Edge} {u : Nat} {p : Nat × Nat} : p ∈ outOf es u
     · cases h
   · intro h; exact ⟨(u, p), h, by simp⟩
 
-theorem count_innOf {n : Nat} {es : List Edge} {u v : Nat} (hu : u < n) :
-    (innOf n es v).count u = ((outOf es u).map (·.1)).count v := by
-  unfold innOf
-  rw [List.count_flatMap]
-  have h1 : ∀ u', (List.count u ∘ fun u' => ((outOf es u').filter (fun p => decide (p.1 = v))).map (fun _ => u')) u'
-      = if u' = u then ((outOf es u).filter (fun p => decide (p.1 = v))).length else 0 := by
-    intro u'
-    simp only [Function.comp, List.map_const', List.count_replicate, beq_iff_eq]
-    by_cases h : u' = u
-    · subst h; simp
-    · simp [h]
-  have h2 : (List.map (List.count u ∘ fun u' => ((outOf es u').filter (fun p => decide (p.1 = v))).map (fun _ => u')) (List.range n)).sum
-      = nsum (List.range n) (fun u' => if u' = u then ((outOf es u).filter (fun p => decide (p.1 = v))).length else 0) := by
-    unfold nsum
-    congr 1
-    apply List.map_congr_left
-    intro a _; exact h1 a
-  rw [h2, nsum_single, if_pos hu, List.count_eq_countP, List.countP_map, List.countP_eq_length_filter]
-  congr 1
+theorem count_innOf {es : List Edge} {u v : Nat} :
+    (innOf es v).count u = ((outOf es u).map (·.1)).count v := by
+  unfold innOf outOf
+  induction es with
+  | nil => rfl
+  | cons e t ih =>
+    simp only [List.filterMap_cons]
+    by_cases h1 : e.2.1 = v <;> by_cases h2 : e.1 = u <;>
+      simp [h1, h2, List.count_cons, ih]
 
 theorem wellFormed_ofEdges {n : Nat} {es : List Edge} (hes : ∀ e ∈ es, e.1 < n ∧ e.2.1 < n) :
     WellFormed (ofEdges n es) := by
@@ -56,12 +46,15 @@ theorem wellFormed_ofEdges {n : Nat} {es : List Edge} (hes : ∀ e ∈ es, e.1 <
   · intro u hu v hv
     rw [hn] at hu ⊢
     rw [pred_ofEdges hu] at hv
-    simp only [innOf, List.mem_flatMap, List.mem_range, List.mem_map] at hv
-    obtain ⟨a, ha, _, _, rfl⟩ := hv
-    exact ha
+    simp only [innOf, List.mem_filterMap] at hv
+    obtain ⟨e, he, h⟩ := hv
+    split at h
+    · simp only [Option.some.injEq] at h
+      rw [← h]; exact (hes e he).1
+    · cases h
   · intro u v hu hv
     rw [hn] at hu hv
-    rw [pred_ofEdges hv, count_innOf hu]
+    rw [pred_ofEdges hv, count_innOf]
     simp only [View.succ, succW_ofEdges hu]
 
 theorem mem_edgesOf_ofEdges {n : Nat} {es : List Edge} (hes : ∀ e ∈ es, e.1 < n ∧ e.2.1 < n) {e : Edge} :
